@@ -88,6 +88,18 @@ def cases(seed, tier):
                 k += 1
                 yield {'kind': 'clean', 'after': {'sizes': [rng.choice([1024, 2048, 4096])], 'style': 'roundup'}, 'profile': mk(sub, 'strict', ALGSETS[ai], bclass, rng), 'bclass': bclass,
                        'opts': rng.choice([['-n'], ['-j']]), 'net': {'rtt_us': 100}, 'knobs': {}, 'pseed': rng.getrandbits(32)}
+    # directed: every probe that is answered with the smallest modulus has its connection reset right after the (whole) group message,
+    # the probes answered with a larger one go through: the smallest modulus handed out is still the smallest
+    k = 0
+    for sub, conns in (((1024, 2048), (2, 5)), ((768, 2048), (2, 4)), ((1024, 4096), (2, 5)), ((1536, 3072), (2, 6))):
+        for ai in (0, 1):
+            for kind in ('truncate_reset', 'truncate_close', 'truncate_stall'):
+                rng = gen.case_rng(seed, ID, 'after-group', k)
+                k += 1
+                prof = mk(sub, 'strict', ALGSETS[ai], 'other', rng)
+                prof['kex'] = ['curve25519-sha256'] + [x for x in prof['kex'] if x in gen.GEX]
+                yield {'kind': 'faulty', 'profile': prof, 'bclass': 'other', 'faults': [{'conn': c, 'msg': 'group', 'kind': kind, 'off': 10 ** 6} for c in conns], 'opts': ['-n'],
+                       'net': {'rtt_us': 100}, 'knobs': {'rst_after_close': 1, 'rst_keeps_data': 1}, 'pseed': rng.getrandbits(32), 'timeout': 1}
     for i in range(NFAULTY[tier] // 4):
         # directed: an OpenSSH server whose first pass ends at 2048 through the fallback, and a fault at one of the last probes
         rng = gen.case_rng(seed, ID, 'fd', i)
@@ -120,7 +132,8 @@ def cases(seed, tier):
             elif kind == 'close_before':
                 faults.append({'conn': conn, 'msg': msg, 'kind': 'close_before'})
             else:
-                faults.append({'conn': conn, 'msg': msg, 'kind': kind, 'off': rng.choice([0, 3, 9, 40])})
+                # 10**6: the whole message first, then the close / stall / reset
+                faults.append({'conn': conn, 'msg': msg, 'kind': kind, 'off': rng.choice([0, 3, 9, 40, 10 ** 6])})
         yield {'kind': 'faulty', 'profile': mk(sub, style, ALGSETS[ai], bclass, rng), 'bclass': bclass, 'faults': faults, 'opts': ['-n'],
                'net': {'rtt_us': 100}, 'knobs': {}, 'pseed': rng.getrandbits(32), 'timeout': 1}
 
